@@ -90,7 +90,7 @@ Proof.
   destruct l as [id|g].
   - destruct off; cbn [lst listener_offered listener_stopped]; (split; [constructor; reflexivity|]); cbn [emit out set_out]; rewrite cnlog_cons; reflexivity.
   - destruct off; cbn [lst listener_offered listener_stopped app]; destruct (for_service g s) as [g'|]; try (split; [apply fq_refl|reflexivity]).
-    + unfold subscribe_eventgroup. destruct (sub_alive _); split; try (constructor; reflexivity); reflexivity.
+    + unfold subscribe_eventgroup, subscribe_core, note_dup. destruct (requested _ _ _); destruct (sub_alive _); split; try (constructor; reflexivity); reflexivity.
     + unfold stop_subscribe_eventgroup. destruct (remove_first _ _ _); [|split; [apply fq_refl|reflexivity]].
       split; [constructor; reflexivity|reflexivity].
 Qed.
@@ -1018,13 +1018,13 @@ Qed.
 Lemma sub_entries_lst off l s a w x : In x (sub_entries w) -> off = true -> In x (sub_entries (lst off l s a w)).
 Proof.
   intros Hin ->. destruct l as [id|g]; cbn [lst listener_offered]; [exact Hin|].
-  destruct (for_service g s) as [g'|]; [|exact Hin]. unfold subscribe_eventgroup.
-  destruct (sub_alive _); cbn [call_soon sub_entries set_ready set_sub_entries]; apply in_app_iff; left; exact Hin.
+  destruct (for_service g s) as [g'|]; [|exact Hin]. unfold subscribe_eventgroup, subscribe_core, note_dup.
+  destruct (requested _ _ _); destruct (sub_alive _); cbn [call_soon sub_entries set_ready set_sub_entries]; apply in_app_iff; left; exact Hin.
 Qed.
 Lemma sub_entries_lst_adds g g' s a w : for_service g s = Some g' -> In (g', a) (sub_entries (lst true (LAuto g) s a w)).
 Proof.
-  intros Hf. cbn [lst listener_offered]. rewrite Hf. unfold subscribe_eventgroup.
-  destruct (sub_alive _); cbn [call_soon sub_entries set_ready set_sub_entries]; apply in_app_iff; right; left; reflexivity.
+  intros Hf. cbn [lst listener_offered]. rewrite Hf. unfold subscribe_eventgroup, subscribe_core, note_dup.
+  destruct (requested _ _ _); destruct (sub_alive _); cbn [call_soon sub_entries set_ready set_sub_entries]; apply in_app_iff; right; left; reflexivity.
 Qed.
 Lemma sub_entries_fold s a x : forall ls w, In x (sub_entries w) -> In x (sub_entries (fold_left (fun acc l => lst true l s a acc) ls w)).
 Proof. induction ls as [|l ls IH]; intros w Hin; cbn [fold_left]; [exact Hin|]. apply IH. apply sub_entries_lst; [exact Hin|reflexivity]. Qed.
